@@ -129,6 +129,93 @@ func (x c41Case) input() string {
 	return sb.String()
 }
 
+// Foreign-homonym family: an svg/math element whose local name equals an HTML
+// element the tree builder treats specially, nested in the HTML element of the
+// same name and re-entering HTML through an integration point, then end tags
+// of that name. The tree builder's "pop until an N element" / "has an N
+// element in scope" loops must not mistake the foreign element for the HTML one.
+var c41HomNames = []string{
+	"template", "select", "option", "optgroup", "table", "tbody", "tr", "td", "th", "caption", "colgroup",
+	"p", "li", "dd", "div", "h1", "pre", "address", "button", "form", "a", "b", "nobr",
+	"head", "body", "html", "frameset", "applet", "marquee", "object", "noscript",
+	"title", "textarea", "script", "style", "xmp", "iframe", "noembed", "noframes", "plaintext",
+}
+
+// c41HomEntry: foreign root start tag, integration point start tag, root end tag.
+var c41HomEntry = [][3]string{
+	{"<svg>", "<foreignObject>", "</svg>"}, {"<svg>", "<desc>", "</svg>"}, {"<svg>", "<title>", "</svg>"},
+	{"<math>", "<mtext>", "</math>"}, {"<math>", "<mi>", "</math>"}, {"<math>", "<mo>", "</math>"},
+	{"<math>", "<mn>", "</math>"}, {"<math>", "<ms>", "</math>"},
+	{"<math>", "<annotation-xml encoding=text/html>", "</math>"},
+	{"<math>", "<annotation-xml encoding=application/xhtml+xml>", "</math>"},
+}
+
+var c41HomMid = []string{"", "<g>"}
+var c41HomInner = []string{"", "<div>", "<p>", "<b>"}
+
+// tail items: 0 = </N>, 1 = text, 2 = <div>, 3 = end tag of the foreign root, 4 = <N>
+const c41HomTailItems = 5
+
+type c41HomCase struct {
+	Name  string `json:"name"`
+	Outer bool   `json:"outer_html_element"`
+	Entry int    `json:"entry"`
+	Mid   int    `json:"mid"`
+	Inner int    `json:"inner"`
+	Tail  []int  `json:"tail"`
+}
+
+func (x c41HomCase) input() string {
+	var sb strings.Builder
+	if x.Outer {
+		sb.WriteString("<" + x.Name + ">")
+	}
+	e := c41HomEntry[x.Entry]
+	sb.WriteString(e[0])
+	sb.WriteString(c41HomMid[x.Mid])
+	sb.WriteString("<" + x.Name + ">")
+	sb.WriteString(e[1])
+	sb.WriteString(c41HomInner[x.Inner])
+	for _, t := range x.Tail {
+		switch t {
+		case 0:
+			sb.WriteString("</" + x.Name + ">")
+		case 1:
+			sb.WriteString("x")
+		case 2:
+			sb.WriteString("<div>")
+		case 3:
+			sb.WriteString(e[2])
+		case 4:
+			sb.WriteString("<" + x.Name + ">")
+		}
+	}
+	return sb.String()
+}
+
+func c41HomCases(maxTail int, yield func(c41HomCase) bool) {
+	tails := [][]int{}
+	vx.Strings([]int{0, 1, 2, 3, 4}, 0, maxTail, func(s []int) bool {
+		tails = append(tails, append([]int{}, s...))
+		return true
+	})
+	for _, name := range c41HomNames {
+		for _, outer := range []bool{true, false} {
+			for e := range c41HomEntry {
+				for m := range c41HomMid {
+					for in := range c41HomInner {
+						for _, t := range tails {
+							if !yield(c41HomCase{name, outer, e, m, in, t}) {
+								return
+							}
+						}
+					}
+				}
+			}
+		}
+	}
+}
+
 type c41Stats struct {
 	nodes, elements, foreign, text, maxDepth int
 }
@@ -332,10 +419,13 @@ func c41Outcome(st c41Stats) string {
 }
 
 // c41Document runs Parse (scripting on, and off when it matters) on one input.
-func c41Document(w *vx.W, in string) {
+func c41Document(w *vx.W, in string) { c41DocumentS(w, in, false) }
+
+// c41DocumentS: bothScripting forces the scripting-off run as well.
+func c41DocumentS(w *vx.W, in string, bothScripting bool) {
 	nontrivial := false
 	for _, scripting := range []bool{true, false} {
-		if !scripting && !strings.Contains(in, "noscript") {
+		if !scripting && !bothScripting && !strings.Contains(in, "noscript") {
 			continue
 		}
 		cfg := fmt.Sprintf("Parse(scripting=%v)", scripting)
@@ -424,13 +514,30 @@ func TestVerif_C41(t *testing.T) {
 		docFull, docCore := 3, 4
 		fragFull, fragCore := 2, 3
 		deep := ""
+		// foreign-homonym family: tail length; fragment contexts (quick: a subset)
+		homTail, homFragTail := 2, 1
+		homCtxNames := []string{"body", "div", "template", "table", "td", "select", "svg:foreignObject", "math:mi"}
+		var homCtxs []c41Ctx
+		for _, cx := range c41Contexts {
+			for _, n := range homCtxNames {
+				if cx.name == n {
+					homCtxs = append(homCtxs, cx)
+				}
+			}
+		}
+		if !c.Quick() {
+			homTail, homFragTail = 3, 2
+			homCtxs, homCtxNames = c41Contexts, ctxNames
+		}
 		if !c.Quick() {
 			deep = fmt.Sprintf(" thorough adds: fragment-full-3 (every concatenation of exactly 3 items of the full alphabet under every context), document-deep-5 and fragment-deep-4 (exactly 5 resp. 4 items of the %d-item sub-alphabet %q).", len(c41Deep), c41Deep)
 		}
 		c.Rule(fmt.Sprintf("document: Parse of every concatenation of <= %d items of the full alphabet (%d items: %q) and of every concatenation of %d..%d items of the core alphabet (the first %d items); scripting on, and also off when the input mentions noscript. "+
 			"fragment: ParseFragment with each of the %d contexts %q of every concatenation of <= %d items of the full alphabet and of %d..%d items of the core alphabet.%s "+
+			"homonym (document-homonym: Parse with scripting on and off; fragment-homonym: ParseFragment under the contexts %q): every input [<N>] R M <N> I H T with N one of the %d specially treated HTML element names %q, the outer HTML <N> present or absent, (R, I) a foreign root and one of its HTML integration points %q, M one of %q, H one of %q, and T every sequence of <= %d (document) resp. <= %d (fragment) items of {</N>, x, <div>, end tag of R, <N>} - a foreign-namespace element named like an HTML element the tree builder pops to or looks for in scope, nested in the HTML element of that name, with HTML content inside it, then end tags of that name. "+
 			"Every returned tree is walked completely (link consistency, single reachability, node types) and rendered. non-trivial = the tree has more than the html/head/body skeleton or a text node (document), at least one element (fragment)",
-			docFull, len(full), full, docFull+1, docCore, len(c41Core), len(c41Contexts), ctxNames, fragFull, fragFull+1, fragCore, deep))
+			docFull, len(full), full, docFull+1, docCore, len(c41Core), len(c41Contexts), ctxNames, fragFull, fragFull+1, fragCore, deep,
+			homCtxNames, len(c41HomNames), c41HomNames, c41HomEntry, c41HomMid, c41HomInner, homTail, homFragTail))
 		c.Assume("non-termination is detected only by the shard timeout (no per-case watchdog: it could not be made free of false alarms under CPU contention); inputs outside the item language, reader errors and nesting beyond the documented 512-element limit are not covered; a non-nil error from Parse on these inputs is counted as an internal panic because parser.parse recovers panics into errors")
 
 		vx.Enumerate(c, "fragment-full", vx.Opts{}, func(yield func(c41Case) bool) {
@@ -448,6 +555,14 @@ func TestVerif_C41(t *testing.T) {
 		vx.Enumerate(c, "document-core", vx.Opts{}, func(yield func(c41Case) bool) {
 			vx.Strings(idx(len(c41Core)), docFull+1, docCore, func(s []int) bool { return yield(c41Case{"core", s}) })
 		}, func(w *vx.W, x c41Case) { c41Document(w, x.input()) })
+		vx.Enumerate(c, "document-homonym", vx.Opts{}, func(yield func(c41HomCase) bool) {
+			c41HomCases(homTail, yield)
+		}, func(w *vx.W, x c41HomCase) { c41DocumentS(w, x.input(), true) })
+
+		vx.Enumerate(c, "fragment-homonym", vx.Opts{}, func(yield func(c41HomCase) bool) {
+			c41HomCases(homFragTail, yield)
+		}, func(w *vx.W, x c41HomCase) { c41Fragment(w, x.input(), homCtxs) })
+
 		if !c.Quick() {
 			vx.Enumerate(c, "fragment-full-3", vx.Opts{}, func(yield func(c41Case) bool) {
 				vx.Strings(idx(len(full)), 3, 3, func(s []int) bool { return yield(c41Case{"full", s}) })
